@@ -58,7 +58,13 @@ func latin1ToUTF8(s string) string {
 	return sb.String()
 }
 
-func c01Entry(run *Run, r *Rng) {
+func c01Entry(run *Run, r *Rng) { entryPoints(run, r, false) }
+
+// c04Entry: the same for the sequence decoder (NewMapXmlSeq, NewMapXmlSeqReader on both reader kinds, NewMapXmlSeqReaderRaw);
+// the Map itself is NewMapXmlSeq's (translated glue: C04_xml_seq_to_map_code_is_model), only the agreement is judged.
+func c04Entry(run *Run, r *Rng) { entryPoints(run, r, true) }
+
+func entryPoints(run *Run, r *Rng, seq bool) {
 	pairs := []string{"\xc3\xa9", "\xc3\xbc", "\xc2\xa3", "\xc3\x9f"}
 	names := []string{"r", "doc", "v", "w", "item", "name"}
 	root := r.pick(names)
@@ -105,6 +111,11 @@ func c01Entry(run *Run, r *Rng) {
 		set()
 		return guard(func() string {
 			m, err := f()
+			if err != nil && seq {
+				// the sequence decoder returns at the XML declaration (a Map of the instruction beside "no root key"), or the
+				// tokenizer's error about the declared encoding: both are part of what the entry points must agree on
+				return canon(map[string]interface{}(m)) + " | error: " + err.Error()
+			}
 			if err != nil {
 				return "error"
 			}
@@ -116,7 +127,13 @@ func c01Entry(run *Run, r *Rng) {
 	if c.Cast {
 		flag = []bool{true}
 	}
-	got := call(func() (mxj.Map, error) { return mxj.NewMapXml(b, flag...) })
+	got := call(func() (mxj.Map, error) {
+		if seq {
+			m, err := mxj.NewMapXmlSeq(b, flag...)
+			return mxj.Map(m), err
+		}
+		return mxj.NewMapXml(b, flag...)
+	})
 
 	// which charset reader the documentation prescribes, and the Map it gives
 	eff := c.Xcr
@@ -150,7 +167,7 @@ func c01Entry(run *Run, r *Rng) {
 		}
 		want = canon(map[string]interface{}{root: map[string]interface{}{"-id": conv(av), "k": kv}})
 	}
-	if got != want {
+	if !seq && got != want {
 		run.violation(Violation{Key: "charset-config", What: "NewMapXml under this CustomDecoder / XmlCharsetReader configuration differs from the documented one", Input: c, Got: got, Want: want})
 	}
 	alts := []struct {
@@ -167,13 +184,32 @@ func c01Entry(run *Run, r *Rng) {
 			return m, err
 		}},
 	}
+	if seq {
+		alts = []struct {
+			name string
+			f    func() (mxj.Map, error)
+		}{
+			{"NewMapXmlSeqReader(io.ByteReader)", func() (mxj.Map, error) {
+				m, e := mxj.NewMapXmlSeqReader(bytes.NewReader(b), flag...)
+				return mxj.Map(m), e
+			}},
+			{"NewMapXmlSeqReader(io.Reader)", func() (mxj.Map, error) {
+				m, e := mxj.NewMapXmlSeqReader(plainReader{bytes.NewReader(b)}, flag...)
+				return mxj.Map(m), e
+			}},
+			{"NewMapXmlSeqReaderRaw(io.Reader)", func() (mxj.Map, error) {
+				m, _, err := mxj.NewMapXmlSeqReaderRaw(plainReader{bytes.NewReader(b)}, flag...)
+				return mxj.Map(m), err
+			}},
+		}
+	}
 	for _, a := range alts {
 		if g := call(a.f); g != got {
 			key := "entry-points-differ"
-			if strings.HasPrefix(a.name, "NewMapXmlReaderRaw") && enc == "ISO-8859-1" && eff != "nil" {
+			if strings.Contains(a.name, "ReaderRaw") && enc == "ISO-8859-1" && eff != "nil" {
 				key = "reader-raw-charset-reader"
 			}
-			run.violation(Violation{Key: key, What: a.name + " differs from NewMapXml on the same bytes under the same decoder configuration", Input: c, Got: g, Want: got})
+			run.violation(Violation{Key: key, What: a.name + " differs from the byte-slice entry point on the same bytes under the same decoder configuration", Input: c, Got: g, Want: got})
 		}
 	}
 }
